@@ -12,6 +12,7 @@
    cfg = [mode     "ansi" (decorated output: the indicator redraws its line) | "plain" (not decorated: every frame is a
                    line of its own, ' m', and advance() draws nothing) | "quiet" (nothing reaches the stream; the
                    spinner thread runs all the same),
+          values   the indicator values (constructor argument; default - % | /),
           w        terminal width,
           interval the indicator's redraw interval (ms),
           start, end   the two messages of auto()                 (cells = 1-character strings, no blanks),
@@ -53,9 +54,9 @@ vars == <<cfg, pcM, mph, bi, mframe, pcS, sframe, sdead, message, current, updat
 
 Quiet == cfg.mode = "quiet"
 Plain == cfg.mode = "plain"
-NoMix == NoMixT(term, MsgsOf(cfg), cfg.mode)
+NoMix == NoMixT(term, MsgsOf(cfg), cfg.mode, cfg.values)
 Joined == pcM = "done" => pcS \in {"new", "done"}      \* "new": never started - cannot happen in auto()
-EndFrame == (pcM = "done" /\ outcome = "normal" /\ ~Quiet) => EndFrameT(term, cfg.end, cfg.mode, r0)
+EndFrame == (pcM = "done" /\ outcome = "normal" /\ ~Quiet) => EndFrameT(term, cfg.end, cfg.mode, r0, cfg.values)
 Terminates == <>(pcM = "done")
 
 \* ------------------------------------------------------------------ A-layer
@@ -63,7 +64,7 @@ Terminates == <>(pcM = "done")
 Ev(th, op, ops) == [th |-> th, op |-> op, ops |-> ops, at |-> IF th = "M" THEN pcM ELSE IF th = "S" THEN pcS ELSE ""]
 
 \* the frame text of _display() for the mode of this run, and what writing it sends to the stream
-FrameOf(c, m) == IF Plain THEN <<" ">> \o m ELSE Frame(c, m)
+FrameOf(c, m) == IF Plain THEN <<" ">> \o m ELSE FrameV(cfg.values, c, m)
 WriteFrame(f) == IF Plain THEN <<OpText(f), OpLF>> ELSE FrameOps(f)          \* plain: write_line(frame), one write
 \* where a thread stands when it enters _display() (not on a quiet output: there _display() returns at once)
 DisplayPc == IF Locked THEN "lock" ELSE IF Plain THEN "frame" ELSE "erase"
@@ -88,7 +89,7 @@ BeginVals(c, t, clk) ==
   [cfg |-> c,
    pcM |-> IF c.mode = "quiet" THEN "tstart"                       \* start() draws nothing
            ELSE IF Locked THEN "lock" ELSE IF c.mode = "plain" THEN "frame" ELSE "erase",
-   mframe |-> IF Locked \/ c.mode = "quiet" THEN <<>> ELSE IF c.mode = "plain" THEN <<" ">> \o c.start ELSE Frame(0, c.start),
+   mframe |-> IF Locked \/ c.mode = "quiet" THEN <<>> ELSE IF c.mode = "plain" THEN <<" ">> \o c.start ELSE FrameV(c.values, 0, c.start),
    update |-> clk + c.interval, r0 |-> t.r]
 InitWith(c) ==
   LET v == BeginVals(c, TermNew(c.w), 0) IN
@@ -186,10 +187,10 @@ SIsSet == /\ pcS = "isset"
              ELSE /\ update' = clock + cfg.interval /\ current' = current + 1
                   /\ IF Quiet THEN pcS' = "sleep" /\ sdead' = clock + SleepMs /\ UNCHANGED sframe   \* _display() returns
                      ELSE IF Locked THEN pcS' = "lock" /\ UNCHANGED <<sframe, sdead>>
-                     ELSE pcS' = "erase" /\ sframe' = Frame(current + 1, message) /\ UNCHANGED sdead
+                     ELSE pcS' = "erase" /\ sframe' = FrameV(cfg.values, current + 1, message) /\ UNCHANGED sdead
           /\ UNCHANGED <<lock, term>>
 SLock == /\ pcS = "lock" /\ lock = ""
-         /\ lock' = "S" /\ sframe' = Frame(current, message) /\ pcS' = "erase"
+         /\ lock' = "S" /\ sframe' = FrameV(cfg.values, current, message) /\ pcS' = "erase"
          /\ last' = Ev("S", "acquire", <<>>)
          /\ UNCHANGED <<sdead, current, update, term>>
 SErase == /\ pcS = "erase"
